@@ -513,6 +513,10 @@ class DAGRunConcurrentManager(DAGRunManagerLike):
                 # We must unlock descendants because the next OneOf subgraph should start the process.
                 # Otherwise, the entire subgraph will be locked.
                 await self.__unlock_descendants(node_id)
+
+                # The error may be several steps away from the end of the subgraph. Hence, the waiter of
+                # the subgraph's result must be notified explicitly.
+                await self.__unlock_itself(dag.dest)
                 return None
 
             if self._is_switch(node_id):
